@@ -622,11 +622,89 @@ def sequence_judge(m, clause):
     return fail(syms[0]) if syms else None
 
 
+def failure_alias_judge(m, clause):
+    """round 2.  L7: refused / failing calls of the estimators, AR_psd and ar_generator on the SAME argument objects (order
+    beyond the sequence, order 0 / negative / None / fractional, a too short or all-zero autocorrelation, neither signal nor
+    autocorrelation, an empty grid), then the ordinary calls on those objects against fresh copies.  L8: the same array in two
+    roles (`x` is `rxx`), the coefficient array returned by one routine (a view of its work array) consumed by the others"""
+    import ar_fail, ar_seq, warnings
+    warnings.simplefilter('ignore')
+    ar, ut = mods()
+    op = m['op']
+
+    def fail(sym):
+        return Failure('%s/%s' % (clause, sym), '%s: %s [op %s order=%s]' % (clause, sym, op, m.get('order')), {'meta': m, 'clause': clause})
+    if op not in ('ldx', 'ywx', 'ld', 'yw'):
+        return None
+    data = arr_of(m)
+    p = m['order']
+    n = len(data)
+    supplied = not op.endswith('x')
+    call_ = (lambda fn, o, d=None: fn(None, o, rxx=data if d is None else d)) if supplied else (lambda fn, o, d=None: fn(data if d is None else d, o))
+    zeros = np.zeros(n, dtype=data.dtype if data.dtype.kind in 'fc' else float)
+    bad = []
+    for nm, fn in (('LD', ar.AR_est_LD), ('YW', ar.AR_est_YW)):
+        bad += [('failure/%s/order-ge-length' % nm, lambda fn=fn: call_(fn, n + 2)),
+                ('failure/%s/order-0' % nm, lambda fn=fn: call_(fn, 0)),
+                ('failure/%s/order-negative' % nm, lambda fn=fn: call_(fn, -1)),
+                ('failure/%s/order-None' % nm, lambda fn=fn: call_(fn, None)),
+                ('failure/%s/order-fractional' % nm, lambda fn=fn: call_(fn, 1.5)),
+                ('failure/%s/too-short' % nm, lambda fn=fn: call_(fn, p, data[:p])),
+                ('failure/%s/all-zero' % nm, lambda fn=fn: call_(fn, p, zeros)),
+                ('failure/%s/nothing-given' % nm, lambda fn=fn: fn(None, p)),
+                ('failure/%s/rxx-list' % nm, lambda fn=fn: fn(None, p, rxx=[1.0] * (p + 1)))]
+
+    def ordinary(a_):
+        d = a_[0]
+        f = (lambda fn: fn(None, p, rxx=d)) if supplied else (lambda fn: fn(d, p))
+        return [f(ar.AR_est_LD), f(ar.AR_est_YW)]
+    with np.errstate(all='ignore'):
+        syms = ar_fail.after_failures(bad, [data], ordinary)
+        if syms:
+            return fail(syms[0])
+        # --- L8: x is rxx (the supplied sequence must win, whatever else is passed)
+        if supplied:
+            for nm, fn in (('LD', ar.AR_est_LD), ('YW', ar.AR_est_YW)):
+                if not ar_seq.same([np.asarray(v) for v in fn(data, p, rxx=data)], [np.asarray(v) for v in fn(None, p, rxx=np.array(data, copy=True))]):
+                    return fail('alias/%s/x-is-rxx' % nm)
+        # --- L8: the returned coefficient array consumed by the other routines: it must stay what it was, and they must
+        #     give what they give on a private copy
+        ak, sv = ordinary([data])[0]
+        keep = np.array(ak, copy=True)
+        v = np.arange(1.0, 41.0) % 7 - 3.0
+        sg = abs(float(np.real(sv))) or 1.0
+        outs = [ar.AR_psd(ak, sg, n_freqs=16), ut.ar_generator(N=30, sigma=1.0, coefs=ak, drop_transients=10, v=v.astype(ak.dtype))[:1],
+                ar.AR_psd(ak, sg, n_freqs=9, sides='twosided')]
+        if not ar_seq.same(keep, ak):
+            return fail('alias/coefficients-changed-by-consumer')
+        want = [ar.AR_psd(keep.copy(), sg, n_freqs=16), ut.ar_generator(N=30, sigma=1.0, coefs=keep.copy(), drop_transients=10, v=v.astype(ak.dtype))[:1],
+                ar.AR_psd(keep.copy(), sg, n_freqs=9, sides='twosided')]
+        if not ar_seq.same([list(o) for o in outs], [list(o) for o in want]):
+            return fail('alias/consumer-depends-on-sharing')
+        snap = ar_seq.snapshot([list(o) for o in outs])
+        if ak.flags.writeable:
+            ak[...] = 0.5
+        if ar_seq.mutated(snap):
+            return fail('alias/result-is-a-view-of-an-argument')
+        # bad option values of the consumers, then the consumers again
+        bad2 = [('failure/psd/n_freqs-0', lambda: ar.AR_psd(keep, sg, n_freqs=0)), ('failure/psd/sides-unknown', lambda: ar.AR_psd(keep, sg, n_freqs=8, sides='both')),
+                ('failure/psd/sigma-None', lambda: ar.AR_psd(keep, None, n_freqs=8)), ('failure/gen/N-0', lambda: ut.ar_generator(N=0, coefs=keep, v=v[:0])),
+                ('failure/gen/v-too-short', lambda: ut.ar_generator(N=30, coefs=keep, v=v[:3])), ('failure/gen/sigma-negative', lambda: ut.ar_generator(N=5, sigma=-1.0, coefs=keep, v=v[:5]))]
+        syms = ar_fail.after_failures(bad2, [keep, v], lambda a_: [list(ar.AR_psd(a_[0], sg, n_freqs=16)),
+                                                                     list(ut.ar_generator(N=30, sigma=1.0, coefs=a_[0], drop_transients=10, v=a_[1].astype(a_[0].dtype))[:1])])
+        if syms:
+            return fail(syms[0])
+    return None
+
+
 def judge(m, impl, clause):
     if m['op'] == 'ldq':          # same routine, same claims as the computed-autocorrelation LD estimate
         m = dict(m, op='ldx')
         impl = ' '.join(impl.split()[:3])
-    return judge_value(m, impl, clause) or sequence_judge(m, clause)
+    f = judge_value(m, impl, clause) or sequence_judge(m, clause)
+    if f is None and m.get('l7'):
+        f = failure_alias_judge(m, clause)
+    return f
 
 
 # ------------------------------------------------------------------ generators
@@ -812,6 +890,12 @@ def cases(rng, tier, seed):
         m = {'op': 'gen', 'drop': drop, 'sigma': sig, 'coefs': clist(co), 'v': clist(v), 'cplx': cplx}
         out.append(mk_case(m, 'gen/' + ('complex' if cplx else 'real'), cmp_groups('cc')))
     session3_cases(nrng, big, out, est_case)
+    seen = {}
+    for c in out:                       # round 2: a sample of the estimator cases of every clause also goes through the
+        k = (c.meta['op'], c.clause)    # refused-call family and the aliasing checks (oracle side only)
+        if c.meta['op'] in ('ldx', 'ywx', 'ld', 'yw') and seen.setdefault(k, 0) < (1 if not big else 4):
+            seen[k] += 1
+            c.meta['l7'] = True
     out += rerun_cases(nrng, out, big)
     return out
 
